@@ -1032,3 +1032,77 @@ Proof.
 Qed.
 End DiffP.
 
+(* ---- corners of cgnsdiff (witnesses; each is replayed on the tool) ------------------------------------------------------------------- *)
+Definition strip := DiffP.strip.
+
+(* an ADF file and its HDF5 conversion: the copy is exact and cgnsdiff still reports the roots' labels *)
+Lemma diff_cross_format_root_label :
+  exists w src dst w', get_file w src = Some (with_kids adf_root [Node [78] [76] I4 [1] [7;0;0;0] []]) /\
+    cgnsconvert 4 w src dst true false = Ok w' /\
+    (forall r r', get_file w' src = Some r -> get_file w' dst = Some r' -> kids_of r' = kids_of r) /\
+    cgnsdiff true false w' w' 8 src dst = [DLabel [47] [47]].
+Proof.
+  exists [([65], with_kids adf_root [Node [78] [76] I4 [1] [7;0;0;0] []])], [65], [72]. eexists.
+  split; [reflexivity|]. split; [vm_compute; reflexivity|]. split.
+  - intros r r' H1 H2. vm_compute in H1, H2. inversion H1; inversion H2; subst. reflexivity.
+  - vm_compute. reflexivity.
+Qed.
+
+(* two files that differ only in the node a link points to; both targets have the same label, type and (no) data *)
+Definition linkfile (v : Z) : node := with_kids adf_root
+  [Node [84;49] [] s_MT [] [] [Node [107;49] [] s_MT [] [] []];
+   Node [84;50] [] s_MT [] [] [Node [107;50] [] s_MT [] [] []];
+   LinkNode [75] [] [47;84;v]].
+Lemma diff_link_target_blind :
+  exists w f1 f2 r1 r2, get_file w f1 = Some r1 /\ get_file w f2 = Some r2 /\
+    cgnsdiff true false w w 8 f1 f2 = [] /\
+    strip (canon r1) <> strip (canon r2) /\
+    full_view 8 w f1 r1 <> full_view 8 w f2 r2 /\ full_view 8 w f1 r1 <> None /\ full_view 8 w f2 r2 <> None.
+Proof.
+  exists [([49], linkfile 49); ([50], linkfile 50)], [49], [50], (linkfile 49), (linkfile 50).
+  repeat split; try reflexivity; vm_compute; discriminate.
+Qed.
+
+(* a chain of n nodes with 32-character names "nDDxxxx..." *)
+Fixpoint chain (n : nat) (i : Z) : list node :=
+  match n with
+  | O => []
+  | S m => [Node ([110; 48 + i / 10; 48 + i mod 10] ++ repeat 120 29) [] s_MT [] [] (chain m (i + 1))]
+  end.
+Definition has_overflow (l : list dline) : bool :=
+  existsb (fun d => match d with DPathOverflow => true | _ => false end) l.
+Lemma diff_deep_path_overflow :
+  exists w f r, get_file w f = Some r /\ link_free r = true /\ names_unique r = true /\ tree_ok true r = true /\
+    copy_file false (fun _ _ => None) 0 false r adf_root = Ok r /\
+    has_overflow (cgnsdiff true false w w 64 f f) = true.
+Proof.
+  exists [([65], with_kids adf_root (chain 40 0))], [65], (with_kids adf_root (chain 40 0)).
+  split; [reflexivity|]. split; [vm_compute; reflexivity|]. split; [vm_compute; reflexivity|].
+  split; [vm_compute; reflexivity|]. split; vm_compute; reflexivity.
+Qed.
+
+(* ---- the hypotheses of the positive theorems are satisfiable ------------------------------------------------------------------------------ *)
+Lemma sample_ok :
+  kids_ok true sample_tree = true /\ forallb links_ok (kids_of sample_tree) = true /\ names_unique sample_tree = true.
+Proof. vm_compute. auto. Qed.
+Definition sample_plain : node := with_kids adf_root
+  [Node [97] [76;97] I4 [2] [1;0;0;0;2;0;0;0] [Node [99] [] s_MT [] [] []; Node [100] [] [67;49] [3] [104;105;33] []];
+   Node [98] [] [82;56] [1;1] [0;0;0;0;0;0;240;63] []].
+Definition sample_plain_permuted : node := with_kids hdf5_root
+  [Node [98] [] [82;56] [1;1] [0;0;0;0;0;0;240;63] [];
+   Node [97] [76;97] I4 [2] [1;0;0;0;2;0;0;0] [Node [100] [] [67;49] [3] [104;105;33] []; Node [99] [] s_MT [] [] []]].
+Lemma sample_plain_ok :
+  link_free sample_plain = true /\ names_unique sample_plain = true /\ tree_ok false sample_plain = true /\
+  paths_fit 0 sample_plain = true /\ (depth sample_plain <= 8)%nat /\
+  canon sample_plain <> sample_plain_permuted /\
+  kids_of (canon sample_plain) = kids_of (canon sample_plain_permuted).
+Proof. vm_compute. repeat split; auto; try lia; discriminate. Qed.
+
+Lemma save_as_convert_preserve fuel w src dst dst_hdf5 r :
+  get_file w src = Some r -> is_link r = false ->
+  kids_ok dst_hdf5 r = true -> forallb links_ok (kids_of r) = true ->
+  cg_save_as fuel w src dst dst_hdf5 false = Ok (set_file w dst (with_kids (new_root dst_hdf5) (kids_of r))) /\
+  cgnsconvert fuel w src dst dst_hdf5 false = Ok (set_file w dst (with_kids (new_root dst_hdf5) (kids_of r))).
+Proof. intros; split; apply do_copy_file_nofollow; assumption. Qed.
+Lemma follow_succeeds_somewhere : exists w', cgnsconvert 4 worldAB [65] [67] false true = Ok w'.
+Proof. eexists. vm_compute. reflexivity. Qed.
